@@ -396,3 +396,50 @@ def plain_guards(guards):
             continue
         out.append(g)
     return out
+
+
+def fmt_writes(fn, F):
+    """`write!`/`writeln!`/`println!` sites: [(node, template text, [arg normal forms], guards)] in source order."""
+    body = fn["hir"]["body"]
+    env = hir.Env(fn["hir"], F)
+    sym = hir.Sym(env, F, depth=20)
+    out = []
+    for n, anc in hir.walk(body):
+        c = hir.callee_of(n) if n.get("k") in ("Call", "MethodCall") else None
+        if not c or not (c.endswith("Formatter::<'a>::write_fmt") or c.endswith("io::_print") or c.endswith("io::_eprint")):
+            continue
+        argsnode = n["args"][0] if n["k"] == "MethodCall" else n["args"][0]
+        a = hir.fold(sym(argsnode), {})
+        text, args = None, []
+        if a[0] == "call" and str(a[1]).endswith("::from_str"):
+            text = a[2][0][1] if a[2][0][0] == "lit" else None
+        elif a[0] == "call" and str(a[1]).endswith("::new"):
+            tpl = a[2][0]
+            if tpl[0] == "lit" and isinstance(tpl[1], str):
+                try:
+                    raw = bytes.fromhex(tpl[1])
+                    text = decode_fmt_template(raw)
+                except ValueError:
+                    text = tpl[1]
+            arr = a[2][1] if len(a[2]) > 1 else ("arr",)
+            for x in arr[1:]:
+                if x[0] == "call" and x[2]:
+                    args.append((str(x[1]).split("::")[-1], x[2][0]))
+        out.append((n, text, args, hir.guards_of(n, body, sym) or []))
+    return out, sym
+
+
+def decode_fmt_template(raw):
+    """Literal text pieces of a compiled format template (length-prefixed pieces; 0xC0.. = argument)."""
+    out, i = "", 0
+    while i < len(raw):
+        b = raw[i]
+        if b == 0:
+            break
+        if b >= 0x80:
+            out += "{}"
+            i += 1
+            continue
+        out += raw[i + 1:i + 1 + b].decode("utf-8", "replace")
+        i += 1 + b
+    return out
